@@ -9,7 +9,7 @@ from pyvc.schema import Int, Bool, Const, Bytes, ByteArray, Obj, OneOf
 from pyvc.specrt import implies, ite, oracle_int, require, assume, class_attr, set_class_attr
 from spec.net_ref import valid_node, valid_address
 from spec.net_state import node_ok
-from spec.c07 import req_update, havoc_update, fixed_cfg, abs_begin, begin_effects
+from spec.c07 import req_update, havoc_update, fixed_cfg, abs_begin, begin_effects, begin_havoc, oracle_bytes
 from spec.mesh import mesh_schema, MPOL, abs_write_m, abs_net_update_m, DEFAULT, d_inv, lookup_id, lookup_addr, same_table
 
 NM = "rf24_mesh:RF24MeshNoMaster"
@@ -483,6 +483,15 @@ def havoc_req(self):
     self.l_type = oracle_int(0, 255)
     self.l_ret = oracle_int(-32768, 32767)
     self.g_writes = oracle_int(0, 1 << 40)
+    self.g_to = oracle_int(0, 0xFFFF)
+    self.g_to2 = oracle_int(0, 0xFFFF)
+    self.g_type = oracle_int(0, 4)
+    self.g_h_to = oracle_int(0, 0xFFFF)
+    self.g_h_from = oracle_int(0, 0xFFFF)
+    self.g_h_type = oracle_int(0, 255)
+    self.g_h_res = oracle_int(0, 255)
+    self.g_h_id = oracle_int(0, 0xFFFF)
+    self.g_msg = oracle_bytes(0, 24)
 
 
 def req_fixed(self):
@@ -493,8 +502,10 @@ def havoc_req_outer(self):
     """one turn of the loop over the responders may adopt an address and drop it again: _begin()
     re-programs the retry delay (the other registers it writes are functions of the address)"""
     havoc_req(self)
-    if oracle_int(0, 1) == 1:
-        begin_effects(self, DEFAULT)     # adopted and dropped again: _begin(new_addr); _begin(0o4444)
+    # adopted and dropped again -- _begin(new_addr); _begin(0o4444) -- or untouched: every register and
+    # field _begin() writes is arbitrary; the invariant (listening on 0o4444) pins the address-derived
+    # ones again, the retry delay and the multicast level stay free
+    begin_havoc(self, DEFAULT)
 
 
 def req_fixed_outer(self):
@@ -538,3 +549,30 @@ CONTRACTS += [
                                                             locals={"new_addr": NEWADDR})},
              props=["C17", "C07", "C15"], replayable=False),
 ]
+
+
+# ---- mesh constructors: a new master listens on address 0 with an empty table, a new node on 0o4444
+
+def req_mesh_init(self, spi, csn_pin, ce_pin, node_id, spi_frequency):
+    from spec.rf24_state import hw_ranges
+    return hw_ranges(spi.hw) and same_object(ce_pin.hw, spi.hw) and 0 <= node_id and node_id <= 255
+
+
+def ens_mesh_init(self, node_id, exc):
+    return (exc is None and node_ok(self) and self._id == node_id and self._addr == ite(node_id == 0, 0, DEFAULT)
+            and len(self.dhcp_dict) == 0 and d_inv(self.dhcp_dict) and self._do_dhcp == False and bool(self.ret_sys_msg))
+
+
+from pyvc.specrt import same_object  # noqa: E402
+from pyvc.schema import Obj  # noqa: E402
+from spec.rf24_state import radio_schema  # noqa: E402
+from spec.c07 import NET_INIT_POL  # noqa: E402
+
+MESH_INIT_POL = dict(NET_INIT_POL)
+MESH_INIT_POL.update({"rf24_mesh:RF24Mesh.__init__": "inline", "rf24_mesh:RF24MeshNoMaster.__init__": "inline"})
+CONTRACTS.append(
+    Contract("C17.master.init", MM + ".__init__",
+             {"self": Obj(MM, {}), "spi": Obj("spec.hw:SpiStub", {"hw": radio_schema()}), "csn_pin": Const(None),
+              "ce_pin": Obj("spec.hw:Pin", {"hw": radio_schema()}), "node_id": Int(0, 255), "spi_frequency": Const(10000000)},
+             requires=[R + "req_mesh_init"], ensures=[("listening_empty_table", R + "ens_mesh_init")], raises=(), policy=MESH_INIT_POL,
+             props=["C17", "C16", "C07"], replayable=False))
